@@ -157,6 +157,9 @@ func (r *c01Runner) entriesOf(in c01Input) []entry {
 	case "random":
 		var es []entry
 		for _, f := range r.allFams {
+			if f == "chain" || f == "leaf" {
+				continue // their 3-byte length prefixes make random bytes cost 8 MiB of zeroing on average; they get random inputs of their own
+			}
 			es = append(es, r.ents[f]...)
 		}
 		es = append(es, r.asn1Ents...)
@@ -224,7 +227,7 @@ func (r *c01Runner) runCase(id string, in c01Input, data []byte) (accepted bool)
 		}
 		r.calls += len(es)
 		for _, p := range panics {
-			c.Violation(p.pi.Key, fmt.Sprintf("decoder %s, %s mode, input family %s (%s)\npanic: %s\n%s", p.name, modeName, in.Fam, in.Desc, p.pi.Value, p.pi.Stack), id, in)
+			c.Violation(panicKey(p.pi), fmt.Sprintf("decoder %s, %s mode, input family %s (%s)\npanic: %s\n%s", p.name, modeName, in.Fam, in.Desc, p.pi.Value, p.pi.Stack), id, in)
 		}
 		if res.Alloc > core.AllocLimit(len(data)) {
 			// attribute: re-run each decoder alone with measurement
@@ -301,9 +304,12 @@ type famWeight struct {
 
 // weights ∝ code size of the decoders behind the family.
 var c01Weights = []famWeight{
-	{"cert", 34}, {"csr", 4}, {"crl", 6}, {"spki", 4}, {"pkcs1priv", 2}, {"pkcs1pub", 1}, {"pkcs8", 3}, {"ecpriv", 2},
-	{"ocspreq", 2}, {"ocspresp", 6}, {"asn1", 8}, {"cryptobyte", 4}, {"sct", 1}, {"leaf", 1}, {"chain", 1}, {"digsig", 1},
-	{"crlset", 3}, {"onecrl", 3}, {"sst", 3}, {"tlsmsg", 8}, {"pem", 2}, {"random", 1},
+	{"cert", 102}, {"csr", 12}, {"crl", 18}, {"spki", 12}, {"pkcs1priv", 6}, {"pkcs1pub", 3}, {"pkcs8", 9}, {"ecpriv", 6},
+	{"ocspreq", 6}, {"ocspresp", 18}, {"asn1", 24}, {"cryptobyte", 12}, {"sct", 4}, {"digsig", 3},
+	// ct chain / leaf readers allocate up to 16 MiB per 3-byte length prefix before reading (legitimate, below the
+	// allocation rule, but ~4 ms of page zeroing per call): sampled thinly
+	{"leaf", 1}, {"chain", 1},
+	{"crlset", 9}, {"onecrl", 9}, {"sst", 9}, {"tlsmsg", 24}, {"pem", 6}, {"random", 2},
 }
 
 func pickFam(r *rand.Rand, ws []famWeight) string {
@@ -365,6 +371,22 @@ func c01NextInput(ig *inputGen) (c01Input, []byte) {
 		data = ig.ctSeed(fam)
 		if r.IntN(10) != 0 {
 			data, desc = ig.mutateBin(data)
+		}
+		if r.IntN(8) == 0 {
+			data, desc = ig.g.bytes(r.IntN(65)), "random"
+		}
+		if (fam == "leaf" || fam == "chain") && r.IntN(10) != 0 {
+			// keep most 24-bit length prefixes below 64 KiB: the readers allocate the announced size up front
+			// (legitimate, 16 MiB at most) and zeroing it dominates the run otherwise
+			off := 0
+			if fam == "leaf" {
+				off = 12
+			}
+			if len(data) > off && data[off] != 0 {
+				data = append([]byte(nil), data...)
+				data[off] = 0
+				desc += "+len<64K"
+			}
 		}
 	case "crlset":
 		data, desc = ig.crlSetInput()
@@ -469,7 +491,7 @@ func runC01(c *core.Ctx) {
 		}
 	}
 	// pass 2: mutated inputs
-	n := c.PerShard(c.Pick(120000, 6000000))
+	n := c.PerShard(c.Pick(c01QuickN, 6000000))
 	for i := 0; ok && i < n; i++ {
 		in, data := c01NextInput(ig)
 		id := fmt.Sprintf("s%d-%d", c.Shard, i)
@@ -483,3 +505,6 @@ func runC01(c *core.Ctx) {
 		c.Count("accept:"+k, v)
 	}
 }
+
+// c01QuickN is the number of mutated inputs of the quick tier (all shards together).
+var c01QuickN = 120000
